@@ -12,7 +12,7 @@ RUN_FN = "run_case"
 HARNESS_BIN = "c15"
 HARNESS_BINS = ["c15"]
 SHRINK_KEEP = ("fnew",)
-CLAIMED = False
+CLAIMED = True
 
 MUX = os.path.join(vlib.REPO, "lib/src/protocol/mux")
 
